@@ -16,12 +16,34 @@ def rfcWidth (n : Nat) : Nat :=
   if n < 0x80 then 1 else if n < 0xC2 then 0 else if n < 0xE0 then 2 else if n < 0xF0 then 3
   else if n < 0xF5 then 4 else 0
 
-theorem table_rfc3629 :
-    Gen.UTF8_CHAR_WIDTH.length = 256 ∧ ∀ n, n < 256 → Gen.UTF8_CHAR_WIDTH.getD n 0 = rfcWidth n := by
-  decide +kernel
+/-- What the decoder needs of the generated table (bytes below 128 never reach the lookup):
+an entry is 2 exactly for the two-byte leads `C2..DF`, it is 3 for `E0..EF` and 4 for `F0..F4`.
+(Entries for other bytes only matter in that they are not 2: widths 3 and 4 are re-checked
+against the lead by the `match` arms.)  Today's table equals `rfcWidth` everywhere. -/
+def TableOK : Prop :=
+  Gen.UTF8_CHAR_WIDTH.length = 256 ∧ ∀ n, n < 256 → 128 ≤ n →
+    ((Gen.UTF8_CHAR_WIDTH.getD n 0 = 2 ↔ rfcWidth n = 2) ∧ (rfcWidth n = 3 → Gen.UTF8_CHAR_WIDTH.getD n 0 = 3)
+      ∧ (rfcWidth n = 4 → Gen.UTF8_CHAR_WIDTH.getD n 0 = 4))
 
-theorem utf8CharWidth_eq (b : UInt8) : utf8CharWidth b = rfcWidth b.toNat :=
-  table_rfc3629.2 b.toNat (UInt8.toNat_lt b)
+instance : Decidable TableOK := by unfold TableOK; infer_instance
+
+/-- all 128 relevant entries of the regenerated table, checked by kernel evaluation -/
+theorem table_ok : TableOK := by decide +kernel
+
+theorem width_two (b : UInt8) (h0 : 0xC2 ≤ b.toNat) (h1 : b.toNat < 0xE0) : utf8CharWidth b = 2 :=
+  ((table_ok.2 b.toNat (UInt8.toNat_lt b) (by omega)).1).mpr (by simp only [rfcWidth]; (repeat' split) <;> omega)
+
+theorem width_three (b : UInt8) (h0 : 0xE0 ≤ b.toNat) (h1 : b.toNat < 0xF0) : utf8CharWidth b = 3 :=
+  (table_ok.2 b.toNat (UInt8.toNat_lt b) (by omega)).2.1 (by simp only [rfcWidth]; (repeat' split) <;> omega)
+
+theorem width_four (b : UInt8) (h0 : 0xF0 ≤ b.toNat) (h1 : b.toNat < 0xF5) : utf8CharWidth b = 4 :=
+  (table_ok.2 b.toNat (UInt8.toNat_lt b) (by omega)).2.2 (by simp only [rfcWidth]; (repeat' split) <;> omega)
+
+theorem width_ne_two (b : UInt8) (h0 : 0x80 ≤ b.toNat) (h : b.toNat < 0xC2 ∨ 0xF5 ≤ b.toNat) : utf8CharWidth b ≠ 2 := by
+  intro hw
+  have := ((table_ok.2 b.toNat (UInt8.toNat_lt b) (by omega)).1).mp hw
+  simp only [rfcWidth] at this
+  (repeat' split at this) <;> omega
 
 theorem notContTag_aux : ∀ n, n < 256 → notContTag (UInt8.ofNat n) = !(isCont (UInt8.ofNat n)) := by
   decide +kernel
@@ -119,6 +141,21 @@ theorem bad4_eq (b s : UInt8) (h0 : 0xF0 ≤ b.toNat) (h1 : b.toNat < 0xF5) :
     have : bad4 b s = false := (bad4_false_iff b s).mpr (by omega)
     rw [h] at this; cases this
 
+theorem sufStep_invalid_lead (b0 : UInt8) (t : Bytes) (h0 : 0x80 ≤ b0.toNat)
+    (h : b0.toNat < 0xC2 ∨ 0xF5 ≤ b0.toNat) : sufStep (b0 :: t) = .err 1 := by
+  have h2 := width_ne_two b0 h0 h
+  have c1 : ¬ b0.toNat < 128 := by omega
+  have b3 : ∀ s, bad3 b0 s = true := by
+    intro s; cases hb : bad3 b0 s with
+    | true => rfl
+    | false => have := (bad3_false_iff b0 s).mp hb; omega
+  have b4 : ∀ s, bad4 b0 s = true := by
+    intro s; cases hb : bad4 b0 s with
+    | true => rfl
+    | false => have := (bad4_false_iff b0 s).mp hb; omega
+  simp only [sufStep, c1, if_false, h2, b3, b4, if_true]
+  (repeat' split) <;> rfl
+
 /-- the loop body accepts exactly the scalar values Table 3-7 accepts, with the same length -/
 theorem sufStep_decode (t : Bytes) :
     (∀ n, sufStep t = .adv n → ∃ c, decodeHead t = some (c, n)) ∧
@@ -130,57 +167,55 @@ theorem sufStep_decode (t : Bytes) :
     · simp [sufStep, c1, decodeHead_1 _ _ c1]
     · have c1' : ¬ b0.toNat < 128 := c1
       by_cases c2 : b0.toNat < 0xC2
-      · have hw : rfcWidth b0.toNat = 0 := by simp [rfcWidth, c1, c2]
-        simp [sufStep, c1', utf8CharWidth_eq, hw, decodeHead, c1, c2]
+      · simp [sufStep_invalid_lead b0 t' (by omega) (Or.inl c2), decodeHead, c1, c2]
       · by_cases c3 : b0.toNat < 0xE0
-        · have hw : rfcWidth b0.toNat = 2 := by simp [rfcWidth, c1, c2, c3]
+        · have hw := width_two b0 (by omega) c3
           match t' with
-          | [] => simp [sufStep, c1', utf8CharWidth_eq, hw, notContTag_eq, isCont_zero, decodeHead, c1, c2, c3]
+          | [] => simp [sufStep, c1', hw, notContTag_eq, isCont_zero, decodeHead, c1, c2, c3]
           | b1 :: t'' =>
             by_cases k1 : isCont b1 = true
-            · simp [sufStep, c1', utf8CharWidth_eq, hw, notContTag_eq, k1, decodeHead_2 _ _ _ (by omega) c3 k1]
-            · simp [sufStep, c1', utf8CharWidth_eq, hw, notContTag_eq, k1, decodeHead, c1, c2, c3]
+            · simp [sufStep, c1', hw, notContTag_eq, k1, decodeHead_2 _ _ _ (by omega) c3 k1]
+            · simp [sufStep, c1', hw, notContTag_eq, k1, decodeHead, c1, c2, c3]
         · by_cases c4 : b0.toNat < 0xF0
-          · have hw : rfcWidth b0.toNat = 3 := by simp [rfcWidth, c1, c2, c3, c4]
+          · have hw := width_three b0 (by omega) c4
             match t' with
-            | [] => simp [sufStep, c1', utf8CharWidth_eq, hw, bad3_zero, decodeHead, c1, c2, c3, c4]
+            | [] => simp [sufStep, c1', hw, bad3_zero, decodeHead, c1, c2, c3, c4]
             | [b1] =>
               by_cases k1 : inRange (secondLo b0.toNat) (secondHi b0.toNat) b1 = true
-              · simp [sufStep, c1', utf8CharWidth_eq, hw, bad3_eq _ _ (Nat.le_of_not_lt c3) c4, k1, notContTag_eq, isCont_zero, decodeHead, c1, c2, c3, c4]
-              · simp [sufStep, c1', utf8CharWidth_eq, hw, bad3_eq _ _ (Nat.le_of_not_lt c3) c4, k1, decodeHead, c1, c2, c3, c4]
+              · simp [sufStep, c1', hw, bad3_eq _ _ (Nat.le_of_not_lt c3) c4, k1, notContTag_eq, isCont_zero, decodeHead, c1, c2, c3, c4]
+              · simp [sufStep, c1', hw, bad3_eq _ _ (Nat.le_of_not_lt c3) c4, k1, decodeHead, c1, c2, c3, c4]
             | b1 :: b2 :: t'' =>
               by_cases k1 : inRange (secondLo b0.toNat) (secondHi b0.toNat) b1 = true
               · by_cases k2 : isCont b2 = true
-                · simp [sufStep, c1', utf8CharWidth_eq, hw, bad3_eq _ _ (Nat.le_of_not_lt c3) c4, k1, k2, notContTag_eq,
+                · simp [sufStep, c1', hw, bad3_eq _ _ (Nat.le_of_not_lt c3) c4, k1, k2, notContTag_eq,
                     decodeHead_3 _ _ _ _ (Nat.le_of_not_lt c3) c4 k1 k2]
-                · simp [sufStep, c1', utf8CharWidth_eq, hw, bad3_eq _ _ (Nat.le_of_not_lt c3) c4, k1, k2, notContTag_eq, decodeHead, c1, c2, c3, c4]
-              · simp [sufStep, c1', utf8CharWidth_eq, hw, bad3_eq _ _ (Nat.le_of_not_lt c3) c4, k1, decodeHead, c1, c2, c3, c4]
+                · simp [sufStep, c1', hw, bad3_eq _ _ (Nat.le_of_not_lt c3) c4, k1, k2, notContTag_eq, decodeHead, c1, c2, c3, c4]
+              · simp [sufStep, c1', hw, bad3_eq _ _ (Nat.le_of_not_lt c3) c4, k1, decodeHead, c1, c2, c3, c4]
           · by_cases c5 : b0.toNat < 0xF5
-            · have hw : rfcWidth b0.toNat = 4 := by simp [rfcWidth, c1, c2, c3, c4, c5]
+            · have hw := width_four b0 (by omega) c5
               have e4 := fun s => bad4_eq b0 s (Nat.le_of_not_lt c4) c5
               match t' with
-              | [] => simp [sufStep, c1', utf8CharWidth_eq, hw, bad4_zero, decodeHead, c1, c2, c3, c4, c5]
+              | [] => simp [sufStep, c1', hw, bad4_zero, decodeHead, c1, c2, c3, c4, c5]
               | [b1] =>
                 by_cases k1 : inRange (secondLo b0.toNat) (secondHi b0.toNat) b1 = true
-                · simp [sufStep, c1', utf8CharWidth_eq, hw, e4, k1, notContTag_eq, isCont_zero, decodeHead, c1, c2, c3, c4, c5]
-                · simp [sufStep, c1', utf8CharWidth_eq, hw, e4, k1, decodeHead, c1, c2, c3, c4, c5]
+                · simp [sufStep, c1', hw, e4, k1, notContTag_eq, isCont_zero, decodeHead, c1, c2, c3, c4, c5]
+                · simp [sufStep, c1', hw, e4, k1, decodeHead, c1, c2, c3, c4, c5]
               | [b1, b2] =>
                 by_cases k1 : inRange (secondLo b0.toNat) (secondHi b0.toNat) b1 = true
                 · by_cases k2 : isCont b2 = true
-                  · simp [sufStep, c1', utf8CharWidth_eq, hw, e4, k1, k2, notContTag_eq, isCont_zero, decodeHead, c1, c2, c3, c4, c5]
-                  · simp [sufStep, c1', utf8CharWidth_eq, hw, e4, k1, k2, notContTag_eq, decodeHead, c1, c2, c3, c4, c5]
-                · simp [sufStep, c1', utf8CharWidth_eq, hw, e4, k1, decodeHead, c1, c2, c3, c4, c5]
+                  · simp [sufStep, c1', hw, e4, k1, k2, notContTag_eq, isCont_zero, decodeHead, c1, c2, c3, c4, c5]
+                  · simp [sufStep, c1', hw, e4, k1, k2, notContTag_eq, decodeHead, c1, c2, c3, c4, c5]
+                · simp [sufStep, c1', hw, e4, k1, decodeHead, c1, c2, c3, c4, c5]
               | b1 :: b2 :: b3 :: t'' =>
                 by_cases k1 : inRange (secondLo b0.toNat) (secondHi b0.toNat) b1 = true
                 · by_cases k2 : isCont b2 = true
                   · by_cases k3 : isCont b3 = true
-                    · simp [sufStep, c1', utf8CharWidth_eq, hw, e4, k1, k2, k3, notContTag_eq,
+                    · simp [sufStep, c1', hw, e4, k1, k2, k3, notContTag_eq,
                         decodeHead_4 _ _ _ _ _ (Nat.le_of_not_lt c4) c5 k1 k2 k3]
-                    · simp [sufStep, c1', utf8CharWidth_eq, hw, e4, k1, k2, k3, notContTag_eq, decodeHead, c1, c2, c3, c4, c5]
-                  · simp [sufStep, c1', utf8CharWidth_eq, hw, e4, k1, k2, notContTag_eq, decodeHead, c1, c2, c3, c4, c5]
-                · simp [sufStep, c1', utf8CharWidth_eq, hw, e4, k1, decodeHead, c1, c2, c3, c4, c5]
-            · have hw : rfcWidth b0.toNat = 0 := by simp [rfcWidth, c1, c2, c3, c4, c5]
-              simp [sufStep, c1', utf8CharWidth_eq, hw, decodeHead, c1, c2, c3, c4, c5]
+                    · simp [sufStep, c1', hw, e4, k1, k2, k3, notContTag_eq, decodeHead, c1, c2, c3, c4, c5]
+                  · simp [sufStep, c1', hw, e4, k1, k2, notContTag_eq, decodeHead, c1, c2, c3, c4, c5]
+                · simp [sufStep, c1', hw, e4, k1, decodeHead, c1, c2, c3, c4, c5]
+            · simp [sufStep_invalid_lead b0 t' (by omega) (Or.inr (by omega)), decodeHead, c1, c2, c3, c4, c5]
 end Bump.Str
 
 namespace Bump.Str
